@@ -61,6 +61,8 @@ BLOCKS = {
     'division-by-computed-constant': ("a = 2.\nb = a*2\nc = 1/b\nErr_Tolerance = 0.01\nMaxTime = 2", 0.0, [], []),
     # an exogenous scalar written with one of the functions the parser allows in equations (abs, max, min, ...)
     'scalar-builtin-exogenous': ("x = 0.5*x + G + S\nErr_Tolerance = 0.01\nMaxTime = 2\nexogenous\nG = [1., 2., 3.]\nS = abs(-20.) + max(1., 2.)", 0.5, ['x'], ['G']),
+    # one lagged variable that is the lag source of TWO other lagged variables (fan-out)
+    'lag-fan-out':    ("y = 0.5*LY + G\nc = 0.25*HL2 + 0.25*BL2 + y\nLY = y(k-1)\nHL2 = LY(k-1)\nBL2 = LY(k-1)\nLY(0) = 3.0\nErr_Tolerance = 0.01\nMaxTime = 2\nexogenous\nG = [1., 2., 3.]", 0.0, ['y'], ['G']),
     'static-user-time': ("x = 0.5*y + c\ny = 0.5*x + 1\nc = 2.0\nt = 2016.\nErr_Tolerance = 0.01\nMaxTime = 2", 0.5, ['x', 'y'], []),
 }
 
@@ -205,7 +207,10 @@ def case_run(item):
                         props.append(z3.BoolVal(False))
             # a lagged variable the module keeps a series for (it is the source of another lag) holds its source's previous value
             for v, src_ in parser.Lagged:
-                if hasattr(obj, v) and isinstance(getattr(obj, v), list) and len(getattr(obj, v)) == 3:
+                if hasattr(obj, v) and isinstance(getattr(obj, v), list):
+                    if len(getattr(obj, v)) != 3:
+                        props.append(z3.BoolVal(False))        # a stored series has one entry per period solved (plus k=0)
+                        continue
                     for k in (1, 2):
                         props.append(L(getattr(obj, v)[k]) == L(getattr(obj, src_.strip())[k - 1]))
             # stated constants and initial conditions are the k=0 values
@@ -290,7 +295,9 @@ try:
             r = abs(env[v] - eval(e, {}, env))
             if r > (gain + 1e-9) * tol * (1 + 1e-9) + 1e-12: print('period', k, v, 'residual', r); bad = True
     for v, s_ in parser.Lagged:
-        if hasattr(obj, v) and isinstance(getattr(obj, v), list) and len(getattr(obj, v)) == 3:
+        if hasattr(obj, v) and isinstance(getattr(obj, v), list) and len(getattr(obj, v)) != 3:
+            print('stored lag', v, 'has', len(getattr(obj, v)), 'entries after 2 periods'); bad = True
+        elif hasattr(obj, v) and isinstance(getattr(obj, v), list):
             for k in (1, 2):
                 if getattr(obj, v)[k] != getattr(obj, s_.strip())[k - 1]: print('stored lag', v, 'at', k, '=', getattr(obj, v)[k], 'but', s_.strip(), 'at', k - 1, '=', getattr(obj, s_.strip())[k - 1]); bad = True
     for v, e in parser.Endogenous:
